@@ -40,6 +40,8 @@ func (r fsRec) String() string {
 		out = fmt.Sprintf("ok=%v fd=%d", r.Ok, r.Fd)
 	case r.Op.K == "open":
 		out = fmt.Sprintf("fd=%d", r.Fd)
+	case r.Op.K == "mkdir":
+		out = "ok"
 	case r.Op.K == "readat" || r.Op.K == "readall":
 		out = model.DescribeBytes(r.Data)
 	case r.Op.K == "list":
@@ -90,6 +92,8 @@ func doFsOp(api fsAPI, client int, op FsOp, handles map[int]filesys.File) (rec f
 	case "list":
 		rec.Names = append([]string(nil), api.List(op.D)...)
 		sort.Strings(rec.Names)
+	case "mkdir":
+		api.fs.Mkdir(op.D)
 	case "readall":
 		f := api.Open(op.D, op.N)
 		rec.Data = api.ReadAt(f, 0, 1<<20)
@@ -153,7 +157,13 @@ func fsModel(init *model.FS, exactList bool) porcupine.Model {
 				}
 				return !r.Refused && r.Ok == want, mkState(m)
 			case "ac":
+				if !m.Dirs[op.D] {
+					return r.Refused, st // the directory does not exist (yet): both implementations refuse
+				}
 				m.AtomicCreate(op.D, op.N, model.Chunk(op.ID, op.Len))
+				return !r.Refused, mkState(m)
+			case "mkdir":
+				m.Mkdir(op.D)
 				return !r.Refused, mkState(m)
 			case "list":
 				if !exactList {
@@ -266,6 +276,12 @@ func (c14) Gen(rng *simrt.Rand, tier string, run int) interface{} {
 			default:
 				add(FsOp{K: "list", D: d})
 			}
+		}
+		if c == 0 && rng.Chance(1, 3) && budget > 1 {
+			// a directory created while the other clients are running; only this
+			// client uses it afterwards (so no other call depends on the race)
+			ops = append(ops, FsOp{K: "mkdir", D: "dnew"}, FsOp{K: "ac", D: "dnew", N: "z", ID: nextChunk(), Len: 8})
+			budget -= 2
 		}
 		p.Clients = append(p.Clients, ops)
 	}
